@@ -104,6 +104,11 @@ func c08(r *Report) propMeta {
 	r.Exists("signing-fee", "x/bandtss/keeper.Keeper.GetSigningFee", RetValEff(0, "field:Params.FeePerSigner", "call:Coins.MulInt", "field:Group.Threshold", "call:Keeper.GetCurrentGroup"), 1)
 	r.ArgHas("escrow-fee", "x/bandtss/keeper.Keeper.createSigningRequest", "BankKeeper.SendCoinsFromAccountToModule", 3, 1, "field:Params.FeePerSigner", "call:Coins.MulInt", "field:Group.Threshold")
 
+	r.LoopVisitsAll("every-active-tunnel-visited", "x/tunnel/keeper.Keeper.ProduceActiveTunnelPackets", "Keeper.ProduceActiveTunnelPacket", LoopOpts{})
+
+	r.Rule("C08.R6", "store-key agreement: every point read/delete addresses a written key family")
+	r.StoreKeyAgreement("store-keys", "tunnel", 7, nil)
+
 	return propMeta{
 		Decided: []string{
 			"R1 CreatePacket/DeductBasePacketFee/SetLatestPrices on the end-block path are under ProduceActiveTunnelPacket's CacheContext whose writeFn is gated by ProducePacket==nil; both routes sit under SendPacket's defer-recover that assigns the NAMED error result; latest prices are written only after CreatePacket and SendPacket succeeded",
@@ -111,6 +116,7 @@ func c08(r *Report) propMeta {
 			"R3 sendAll is `now >= Interval + LastInterval`; LastInterval is stored only under sendAll (other writers: TriggerTunnel, constructor); shouldSend becomes true only under sendAll or deviation >= hard; every append is under sendAll/hard/soft; equal prices give deviation zero; division guarded",
 			"R4 ProducePacket gated by HasEnoughFundToCreatePacket, DeactivateTunnel on the other edge, same tunnel id; end-block iterates only GetActiveTunnelIDs; TriggerTunnel gated by creator, IsActive and fund check",
 			"R5 GetSigningFee and createSigningRequest compute FeePerSigner.MulInt(current group Threshold) from the same reads",
+			"R6 every KV-store Get/Has/Delete of x/tunnel uses a key builder of x/tunnel/types that some Set of the module also uses (a probe of an iteration prefix or of a sibling family is always-empty state)",
 		},
 		Undecided: []string{"'exactly when due' over price trajectories", "deviation arithmetic values", "route-internal behaviour (bandtss/ibc) beyond the recover barrier"},
 		Assume:    []string{"CacheContext isolates writes until writeFn", "bank SendCoins* either moves the full amount or errors", "msg handlers are atomic"},
